@@ -12,6 +12,7 @@ import pyref, pyhdr
 from gen_util import hx, rbytes
 
 SIZES16 = [0, 1, 2, 3, 4, 5, 6, 0xFF, 0x100, 0x7FFF, 0x8000, 0xFFFE, 0xFFFF]
+OVERSIZE = [0x800000, 0x800010, 0x807FFF, 0x808000, 0x1000005, 0x7FFFFFFF, 0x80000000, 0xFFFFFFFF]
 SIZESW = [0, 1, 3, 4, 0xFF, 0x100, 0x7FFE, 0x7FFF, 0x8000, 0x8001, 0xFFFF, 0x10000, 0x12345, 0x3FFFFF, 0x400000, 0x7FFFFE, 0x7FFFFF]
 OPS16 = [0, 1, 0xFF, 0x100, 0x1EE, 0x7FFF, 0x8000, 0xFFFF]
 OPS32 = OPS16 + [0x10000, 0x10001, 0xFFFFFF, 0x1000000, 0x7FFFFFFF, 0x80000000, 0xFFFFFFFF]
@@ -88,7 +89,9 @@ def session(rng, exp, role, K, nops, faults=0.0, header_bias=0.5):
         if r < header_bias:
             c = rng.randrange(8)
             if c == 0 and can_es:
-                emit("es:%d:%d" % ((pick(rng, SIZESW, 23) if w else pick(rng, SIZES16, 16)), pick(rng, OPS16, 16)))
+                sz = pick(rng, SIZESW, 23) if w else pick(rng, SIZES16, 16)
+                if w and rng.random() < 0.06: sz = rng.choice(OVERSIZE)     # `size: u32`: values beyond the 23 bits a header can carry
+                emit("es:%d:%d" % (sz, pick(rng, OPS16, 16)))
             elif c == 1 and can_ec:
                 emit("ec:%d:%d" % (pick(rng, SIZES16, 16), pick(rng, OPS32, 32)))
             elif c == 2 and can_es:
